@@ -126,6 +126,54 @@ pub fn hw_delivers() -> bool {
     }
 }
 
+/// Independent probe of the kernel assumption of the model (`kernelNewThread`; raw ptrace on a forked child, no
+/// debugger code): a thread created while its parent has a data breakpoint set shows, through PTRACE_PEEKUSER,
+/// DR0 = 0 and DR7 = the parent's DR7.  Returns (parent DR0, parent DR7, new thread's DR0, new thread's DR7).
+pub fn kernel_new_thread_probe() -> Option<(u64, u64, u64, u64)> {
+    static mut G: u64 = 1;
+    unsafe {
+        let c = libc::fork();
+        if c == 0 {
+            libc::ptrace(libc::PTRACE_TRACEME, 0, 0, 0);
+            libc::raise(libc::SIGSTOP);
+            if std::thread::Builder::new().spawn(|| loop { std::thread::park(); }).is_err() { libc::_exit(3); }
+            loop { libc::pause(); }
+        }
+        let mut st = 0;
+        let off = std::mem::offset_of!(libc::user, u_debugreg);
+        let mut res = None;
+        let mut tid: libc::pid_t = 0;
+        if libc::waitpid(c, &mut st, 0) == c && libc::WIFSTOPPED(st) {
+            libc::ptrace(libc::PTRACE_SETOPTIONS, c, 0, (libc::PTRACE_O_TRACECLONE | libc::PTRACE_O_EXITKILL) as u64);
+            libc::ptrace(libc::PTRACE_POKEUSER, c, off, &raw mut G as u64);
+            libc::ptrace(libc::PTRACE_POKEUSER, c, off + 56, (0x1u64 | (0x1 << 16) | (0x2 << 18) | 0x100) as u64);
+            libc::ptrace(libc::PTRACE_CONT, c, 0, 0);
+            for _ in 0..16 {
+                if libc::waitpid(c, &mut st, libc::__WALL) != c || !libc::WIFSTOPPED(st) { break; }
+                if (st >> 8) == (libc::SIGTRAP | (libc::PTRACE_EVENT_CLONE << 8)) {
+                    let mut t: libc::c_ulong = 0;
+                    libc::ptrace(libc::PTRACE_GETEVENTMSG, c, 0, &mut t as *mut libc::c_ulong);
+                    let t = t as libc::pid_t;
+                    tid = t;
+                    let mut st2 = 0;
+                    if t > 0 && libc::waitpid(t, &mut st2, libc::__WALL) == t && libc::WIFSTOPPED(st2) {
+                        let peek = |p: libc::pid_t, i: usize| { *libc::__errno_location() = 0; libc::ptrace(libc::PTRACE_PEEKUSER, p, off + 8 * i, 0) as u64 };
+                        res = Some((peek(c, 0), peek(c, 7), peek(t, 0), peek(t, 7)));
+                    }
+                    break;
+                }
+                // some other stop of the parent (a signal): pass it on
+                libc::ptrace(libc::PTRACE_CONT, c, 0, libc::WSTOPSIG(st) as u64);
+            }
+        }
+        libc::kill(c, libc::SIGKILL);
+        // the traced thread has to be reaped before its thread-group leader can be
+        if tid > 0 { libc::waitpid(tid, &mut st, libc::__WALL); }
+        libc::waitpid(c, &mut st, libc::__WALL);
+        res
+    }
+}
+
 /// a thread creation; half of them with the child's first stop forced ahead of the parent's clone event
 fn gen_clone(rng: &mut Rng, req: &mut Vec<String>, out: &mut Out) {
     match rng.below(4) {
@@ -238,6 +286,13 @@ pub fn gen_requests(rng: &mut Rng, a: &Args, out: &mut Out) -> Vec<String> {
     req.extend(witness());
     let hw = hw_delivers();
     out.count(if hw { "live.hw_data_breakpoints_delivered" } else { "live.hw_data_breakpoints_NOT_delivered_on_this_machine" }, 1);
+    match kernel_new_thread_probe() {
+        Some((p0, p7, t0, t7)) => {
+            out.count(if t0 == 0 && t7 == p7 && p0 != 0 { "live.kernel_new_thread.dr0_cleared_dr7_as_parent(as_modelled)" } else { "live.kernel_new_thread.DIFFERS_FROM_THE_MODEL_ASSUMPTION" }, 1);
+            out.sample(json!({"kernel_new_thread_probe": {"parent_dr0": format!("{p0:#x}"), "parent_dr7": format!("{p7:#x}"), "new_thread_dr0": format!("{t0:#x}"), "new_thread_dr7": format!("{t7:#x}")}}));
+        }
+        None => out.count("live.kernel_new_thread.probe_failed", 1),
+    }
     // two fifths of the sessions are restart sessions
     for i in 0..sessions {
         if i % 5 == 1 || i % 5 == 3 { req.extend(gen_restart_session(rng, out)); } else { req.extend(gen_session(rng, out, hw)); }
